@@ -939,14 +939,19 @@ async fn verif_c12_timeline() {
     let grace_ms: u64 = 100_000;
     let mut r = Report::new(
         "c12_timeline",
-        "local node + peer P (made live by 3 fresh heartbeats 1 s apart, with 2 key-values) + witness W; P falls silent; evaluations every 1 s until dead; then clock offsets from the time of death in {grace/2 - 1ms, grace/2, grace/2 + 1ms, grace - 1ms, grace, grace + 1ms}; at each offset every outgoing Syn / SynAck / Ack is decoded and inspected; after removal, digests carrying P with heartbeat in {known - 1, known, known + 1}",
+        "local node + peer P (made live by 3 fresh heartbeats 1 s apart, with 2 key-values or with none) + witness W; P falls silent; evaluations every 1 s until dead; then clock offsets from the time of death in {grace/2 - 1ms, grace/2, grace/2 + 1ms, grace - 1ms, grace, grace + 1ms}; at each offset every outgoing Syn / SynAck / Ack is decoded and inspected; after removal, digests carrying P with heartbeat in {known - 1, known, known + 1}",
         true,
     );
+    for with_kvs in [true, false] {
     for offset_sel in 0..6usize {
         for relearn_hb_delta in [-1i64, 0, 1] {
             let offsets = [grace_ms / 2 - 1, grace_ms / 2, grace_ms / 2 + 1, grace_ms - 1, grace_ms, grace_ms + 1];
             let off = offsets[offset_sel];
-            let case = format!("offset_from_death_ms={off} relearn_heartbeat_delta={relearn_hb_delta}");
+            let case = if with_kvs {
+                format!("offset_from_death_ms={off} relearn_heartbeat_delta={relearn_hb_delta}")
+            } else {
+                format!("offset_from_death_ms={off} relearn_heartbeat_delta={relearn_hb_delta} member_without_key_values")
+            };
             if let Some(rc) = replay_case() {
                 if rc != case {
                     continue;
@@ -967,7 +972,7 @@ async fn verif_c12_timeline() {
                 tokio::time::advance(Duration::from_millis(1000)).await;
                 n.update_nodes_liveness();
             }
-            {
+            if with_kvs {
                 let ns = n.cluster_state.node_state_mut_or_init(&p);
                 ns.set_versioned_value("k1".to_string(), VersionedValue::for_test("v1", 1));
                 ns.set_versioned_value("k2".to_string(), VersionedValue::for_test("v2", 2));
@@ -1017,7 +1022,8 @@ async fn verif_c12_timeline() {
                 if past_half && mentioned {
                     r.fail("quarantine", format!("{name} sent {off} ms after death (> grace/2) still mentions the dead member"), case.clone());
                 }
-                if !past_half && !mentioned {
+                // a member that never published anything has nothing to put into a delta
+                if !past_half && !mentioned && (with_kvs || name != "Ack") {
                     r.fail("premature-quarantine", format!("{name} sent {off} ms after death (<= grace/2) no longer mentions the dead member"), case.clone());
                 }
             }
@@ -1035,7 +1041,7 @@ async fn verif_c12_timeline() {
                 }
                 let new_hb = (known_hb as i64 + relearn_hb_delta) as u64;
                 let mut d = Digest::default();
-                d.add_node(p.clone(), Heartbeat(new_hb), 0, 2);
+                d.add_node(p.clone(), Heartbeat(new_hb), 0, if with_kvs { 2 } else { 0 });
                 n.process_message(ChitchatMessage::Syn { cluster_id: "default-cluster".to_string(), digest: d });
                 let recreated = n.node_state(&p).is_some();
                 if recreated != (relearn_hb_delta > 0) {
@@ -1048,6 +1054,7 @@ async fn verif_c12_timeline() {
                 classification_ok(&n, &mut r, &case, "after re-learning");
             }
         }
+    }
     }
     r.emit();
 }
@@ -1163,6 +1170,201 @@ fn verif_c16_isolation() {
                     }
                 }
             }
+        }
+    }
+    r.emit();
+}
+
+// ------------------------------------------------------------------------------------------
+// C13: after every liveness evaluation the watch channel lists exactly the live members that
+// satisfy the extra predicate, each with its current max version; a change of the live set or of
+// a live member's max version is published.
+#[derive(Clone, Copy, Debug, PartialEq)]
+enum WOp {
+    /// clock + 1 s, then a digest with fresh heartbeats of P and Q
+    Tick,
+    /// clock + 1 s, fresh heartbeat of Q only
+    TickQ,
+    /// clock + 60 s without any heartbeat
+    Silence,
+    /// P's copy learns ready=1 at its next version
+    SetReady,
+    /// P's copy learns that `ready` expires (DeleteAfterTtl at its next version)
+    TtlReady,
+    /// P's copy learns that `ready` is deleted (tombstone at its next version)
+    DelReady,
+    /// P's copy learns an unrelated key at its next version
+    SetOther,
+    /// the local node writes a key of its own
+    SelfSet,
+    /// tombstone / TTL GC pass over every copy
+    GcKeys,
+    /// liveness evaluation
+    Eval,
+}
+
+fn c13_node(with_pred: bool, kv_grace_ms: u64) -> Chitchat {
+    let mut config = ChitchatConfig::for_test(1);
+    config.failure_detector_config.dead_node_grace_period = Duration::from_millis(1_000_000);
+    config.marked_for_deletion_grace_period = Duration::from_millis(kv_grace_ms);
+    if with_pred {
+        config.extra_liveness_predicate = Some(Box::new(|ns: &NodeState| ns.get("ready").is_some()));
+    }
+    let (_tx, rx) = watch::channel(Default::default());
+    Chitchat::with_chitchat_id_and_seeds(config, rx, Vec::new())
+}
+
+async fn c13_run(seq: &[WOp], with_pred: bool, r: &mut Report) {
+    let case = format!("extra_predicate={} ops={:?}", if with_pred { "has-key-ready" } else { "none" }, seq);
+    if let Some(rc) = replay_case() {
+        if rc != case {
+            return;
+        }
+    }
+    r.evaluations += 1;
+    let mut n = c13_node(with_pred, 1_000);
+    let p = member(0);
+    let q = member(1);
+    let me = n.self_chitchat_id().clone();
+    let mut rx = n.live_nodes_watcher();
+    let mut hb = 10u64;
+    let pred = |ns: &NodeState| !with_pred || ns.get("ready").is_some();
+    // what the previous evaluation saw: member -> max version of every live member
+    let mut seen: Option<BTreeMap<ChitchatId, u64>> = None;
+    let mut p_version = 0u64;
+    let mut self_writes = 0u64;
+    // warm-up (not part of the case text): P and Q become live
+    let mut ops: Vec<WOp> = vec![WOp::Tick, WOp::Tick, WOp::Tick, WOp::Eval];
+    ops.extend_from_slice(seq);
+    for (i, op) in ops.iter().enumerate() {
+        match *op {
+            WOp::Tick | WOp::TickQ => {
+                tokio::time::advance(Duration::from_millis(1000)).await;
+                let mut d = Digest::default();
+                if *op == WOp::Tick {
+                    d.add_node(p.clone(), Heartbeat(hb), 0, 0);
+                }
+                d.add_node(q.clone(), Heartbeat(hb), 0, 0);
+                hb += 1;
+                n.process_message(ChitchatMessage::Syn { cluster_id: "default-cluster".to_string(), digest: d });
+            }
+            WOp::Silence => {
+                tokio::time::advance(Duration::from_millis(60_000)).await;
+            }
+            WOp::SetReady | WOp::TtlReady | WOp::DelReady | WOp::SetOther => {
+                if n.node_state(&p).is_none() {
+                    continue;
+                }
+                p_version += 1;
+                let (key, status) = match *op {
+                    WOp::SetReady => ("ready", DeletionStatus::Set),
+                    WOp::TtlReady => ("ready", DeletionStatus::DeleteAfterTtl(tokio::time::Instant::now())),
+                    WOp::DelReady => ("ready", DeletionStatus::Deleted(tokio::time::Instant::now())),
+                    _ => ("other", DeletionStatus::Set),
+                };
+                let value = if matches!(status, DeletionStatus::Deleted(_)) { "" } else { "1" };
+                n.cluster_state.node_state_mut_or_init(&p).set_versioned_value(
+                    key.to_string(),
+                    VersionedValue { value: value.to_string(), version: p_version, status },
+                );
+            }
+            WOp::SelfSet => {
+                self_writes += 1;
+                n.self_node_state().set("mine", self_writes);
+            }
+            WOp::GcKeys => {
+                n.gc_keys_marked_for_deletion();
+            }
+            WOp::Eval => {
+                n.update_nodes_liveness();
+                let when = format!("after op #{} (Eval; warm-up is ops 0..3)", i);
+                let published_now = rx.has_changed().unwrap_or(false);
+                let watch_val: BTreeMap<ChitchatId, NodeState> = rx.borrow_and_update().clone();
+                let live: Vec<ChitchatId> = n.live_nodes().cloned().collect();
+                if !live.contains(&me) {
+                    r.fail("self-not-live", format!("{when}: local node not live"), case.clone());
+                }
+                let mut want: BTreeMap<ChitchatId, u64> = BTreeMap::new();
+                let mut now_seen: BTreeMap<ChitchatId, u64> = BTreeMap::new();
+                for id in &live {
+                    if let Some(ns) = n.node_state(id) {
+                        now_seen.insert(id.clone(), ns.max_version());
+                        if pred(ns) {
+                            want.insert(id.clone(), ns.max_version());
+                        }
+                    }
+                }
+                let got: BTreeMap<ChitchatId, u64> = watch_val.iter().map(|(k, v)| (k.clone(), v.max_version())).collect();
+                let got_ids: Vec<u16> = got.keys().map(|k| k.gossip_advertise_addr.port()).collect();
+                let want_ids: Vec<u16> = want.keys().map(|k| k.gossip_advertise_addr.port()).collect();
+                if got_ids != want_ids {
+                    let extra = got.keys().any(|k| !want.contains_key(k));
+                    r.fail(
+                        if extra { "watch-lists-member-failing-predicate-or-not-live" } else { "watch-misses-live-member" },
+                        format!("{when}: watch lists members (ports) {:?}, live members satisfying the predicate are {:?}", got_ids, want_ids),
+                        case.clone(),
+                    );
+                } else if got != want {
+                    r.fail("watch-stale-max-version", format!("{when}: watch snapshots carry max versions {:?}, current are {:?}", got.values().collect::<Vec<_>>(), want.values().collect::<Vec<_>>()), case.clone());
+                }
+                if let Some(prev) = &seen {
+                    if *prev != now_seen {
+                        r.nontrivial += 1;
+                        if !published_now {
+                            r.fail("change-not-published", format!("{when}: live members / max versions changed from {:?} to {:?} but no new value was published", prev.values().collect::<Vec<_>>(), now_seen.values().collect::<Vec<_>>()), case.clone());
+                        }
+                    }
+                } else if !published_now {
+                    r.fail("first-evaluation-not-published", format!("{when}: nothing published by the first evaluation"), case.clone());
+                }
+                seen = Some(now_seen);
+            }
+        }
+    }
+}
+
+#[tokio::test(start_paused = true)]
+async fn verif_c13_watch() {
+    let len = if tier_thorough() { 7 } else { 6 };
+    let mut r = Report::new(
+        "c13_watch",
+        &format!("local node + members P, Q made live by 3 fresh heartbeats 1 s apart; every sequence of up to {len} operations over {{Tick (clock +1 s, fresh heartbeats of P and Q), TickQ (Q only), Silence (clock +60 s), P's copy learns ready=1 / ready expiring (TTL) / ready deleted / another key, local write, key GC pass (grace 1 s), Eval}} ending in Eval, with no extra predicate and with the predicate 'has key ready'; after every Eval the watch value is compared with the live members satisfying the predicate and their current max versions, and a changed (live set, max versions) must have been published; plus seeded sequences of length 14"),
+        true,
+    );
+    let alpha = [WOp::Tick, WOp::TickQ, WOp::Silence, WOp::SetReady, WOp::TtlReady, WOp::DelReady, WOp::SetOther, WOp::SelfSet, WOp::GcKeys, WOp::Eval];
+    for with_pred in [false, true] {
+        let mut idx: Vec<usize> = vec![0];
+        loop {
+            // only sequences that end in an evaluation say something new
+            if alpha[*idx.last().unwrap()] == WOp::Eval {
+                let seq: Vec<WOp> = idx.iter().map(|i| alpha[*i]).collect();
+                c13_run(&seq, with_pred, &mut r).await;
+                if r.samples.is_empty() && seq.len() == len {
+                    r.sample(format!("{:?}", seq));
+                }
+            }
+            if idx.len() < len {
+                idx.push(0);
+                continue;
+            }
+            let mut done = true;
+            while let Some(last) = idx.pop() {
+                if last + 1 < alpha.len() {
+                    idx.push(last + 1);
+                    done = false;
+                    break;
+                }
+            }
+            if done {
+                break;
+            }
+        }
+        let mut rng = Rng64(seed() ^ 0xC13);
+        let nrand = if tier_thorough() { 20_000 } else { 2_000 };
+        for _ in 0..nrand {
+            let mut seq: Vec<WOp> = (0..13).map(|_| alpha[rng.below(alpha.len() as u64) as usize]).collect();
+            seq.push(WOp::Eval);
+            c13_run(&seq, with_pred, &mut r).await;
         }
     }
     r.emit();
